@@ -44,7 +44,7 @@ func (c07) Mandatory(tier string) []string {
 	return []string{"doc:comment-between-continuations", "doc:crlf-blank-separator", "doc:empty-first-line", "doc:no-final-newline-after-continuation", "doc:dot-line",
 		"doc:tab-marker", "doc:line>=4096-bytes", "doc:free-standing-comment-block", "doc:blank-run>=2", "doc:leading-blank-lines", "doc:zero-paragraphs", "doc:mixed-line-endings", "doc:indented-continuation",
 		"path:Next", "path:All", "path:Unmarshal-slice", "path:Decoder.Decode", "path:Unmarshal-typed-slice", "path:Decoder.Decode-typed", "doc:stream>=36MiB", "reader:string", "reader:onebyte", "reader:half", "reader:chunks", "reader:data+EOF", "reader:fails-once-mid-stream",
-		"inv:paragraph-returned", "volume:different-field-names-read-in-one-process"} // ("inv:error-returned" is evidence only: a reader may be as lenient as it likes about malformed lines)
+		"inv:paragraph-returned", "volume:different-field-names-read-in-one-process", "caller:Set-on-returned-paragraphs"} // ("inv:error-returned" is evidence only: a reader may be as lenient as it likes about malformed lines)
 }
 
 type chunkReader struct {
@@ -310,6 +310,33 @@ func (p c07) docCase(c *core.C, d model.Doc, seed uint64) {
 			}
 			c.Cover("path:" + path)
 			c.Cover("reader:" + rk)
+		}
+	}
+	// the paragraphs returned are separate values: a caller who adds a field to one of them (Paragraph.Set) must
+	// not change what another one lists
+	if len(want) >= 2 {
+		for _, path := range []string{"All", "Next"} {
+			got, err := c07Read(path, "string", text, seed)
+			if err != nil || len(got) != len(want) {
+				continue
+			}
+			for i := range got {
+				got[i].Set("X-Added-By-The-Caller", fmt.Sprint(i))
+			}
+			for i := range got {
+				n := len(got[i].Order)
+				if n == 0 || got[i].Order[n-1] != "X-Added-By-The-Caller" || got[i].Values["X-Added-By-The-Caller"] != fmt.Sprint(i) {
+					c.Failf("after Set(\"X-Added-By-The-Caller\") on every paragraph returned by %s, paragraph %d lists %q\ndocument: %q", path, i, got[i].Order, text)
+					break
+				}
+				trimmed := got[i]
+				trimmed.Order = trimmed.Order[:n-1]
+				if diff := diffParas([]control.Paragraph{{Order: trimmed.Order, Values: withoutKey(trimmed.Values, "X-Added-By-The-Caller")}}, want[i:i+1]); diff != "" {
+					c.Failf("after Set(\"X-Added-By-The-Caller\") on every paragraph returned by %s (paragraphs share storage): paragraph %d: %s\ndocument: %q", path, i, diff, text)
+					break
+				}
+			}
+			c.Cover("caller:Set-on-returned-paragraphs")
 		}
 	}
 	// a source that fails ONCE (a deadline that expired, an interrupted read) after k bytes and then carries on:
@@ -703,4 +730,14 @@ func (p c07) RunCase(t *core.T, kind string, input []byte) {
 			}
 		}
 	}
+}
+
+func withoutKey(m map[string]string, k string) map[string]string {
+	out := make(map[string]string, len(m))
+	for kk, v := range m {
+		if kk != k {
+			out[kk] = v
+		}
+	}
+	return out
 }
